@@ -181,6 +181,8 @@ CtorArgs(T, f, e) ==
 EvCtor == /\ Ev("ctor")
           /\ LET c == CtorArgs(E.T, E.fn, E) IN
              Expect(IF c.ok THEN E.res = "ok" /\ ObsOk(E.obs, c.v)
+                                 (* C14: the unchecked constructor, called only when the contract holds *)
+                                 /\ (E.uobs.present => ObsOk(E.uobs, c.v))
                     ELSE E.res = "panic" \/ (E.obs.valid = TRUE /\ E.obs.dbg = TRUE),   \* never a corrupted object
                     <<l, "ctor", c>>)
           /\ Stateless
